@@ -53,7 +53,36 @@ impl<T: Smp> AnyRes<T> {
         }
     }
 
+    /// the kernel `c.kernel` names, built from the same parameters the constructor would pass to its own
+    /// dispatch (length rounded up to a multiple of 8, cutoff scaled by a down-sampling ratio); a kernel
+    /// the CPU (or Miri) lacks falls back to the scalar one
+    pub fn explicit_kernel(c: &Cfg) -> Box<dyn SincInterpolator<T>> {
+        use rubato::sinc_interpolator::ScalarInterpolator;
+        let len = 8 * (((c.sinc_len as f32) / 8.0).ceil() as usize);
+        let fc = if c.ratio >= 1.0 { c.f_cutoff } else { c.f_cutoff * c.ratio as f32 };
+        let w = c.window.to_rubato();
+        #[cfg(target_arch = "x86_64")]
+        {
+            use rubato::sinc_interpolator::sinc_interpolator_avx::AvxInterpolator;
+            use rubato::sinc_interpolator::sinc_interpolator_sse::SseInterpolator;
+            if c.kernel == crate::cfg::Kernel::Avx {
+                if let Ok(k) = AvxInterpolator::<T>::new(len, c.oversampling, fc, w) {
+                    return Box::new(k);
+                }
+            }
+            if c.kernel == crate::cfg::Kernel::Sse {
+                if let Ok(k) = SseInterpolator::<T>::new(len, c.oversampling, fc, w) {
+                    return Box::new(k);
+                }
+            }
+        }
+        Box::new(ScalarInterpolator::<T>::new(len, c.oversampling, fc, w))
+    }
+
     pub fn build(c: &Cfg) -> Result<Self, ResamplerConstructionError> {
+        if c.kind.is_sinc() && c.kernel != crate::cfg::Kernel::Auto {
+            return Self::build_with(c, Self::explicit_kernel(c));
+        }
         Ok(match c.kind {
             Kind::SincIn => AnyRes::SincIn(SincFixedIn::new(c.ratio, c.max_rel, Self::params(c), c.chunk, c.channels)?),
             Kind::SincOut => AnyRes::SincOut(SincFixedOut::new(c.ratio, c.max_rel, Self::params(c), c.chunk, c.channels)?),
